@@ -42,7 +42,7 @@ func DriveCfg() RunCfg {
 func (d *driver) st() M { return d.ch.Project() }
 
 func (d *driver) meta() M {
-	cls := pick(d.rng, []string{"none", "none", "plain", "perm", "perm", "unknownField", "casedKey", "notJSON", "wrongType", "trailing"})
+	cls := pick(d.rng, []string{"none", "none", "plain", "perm", "perm", "unknownField", "casedKey", "notJSON", "wrongType", "trailing", "incomplete"})
 	var chs []any
 	if cls != "none" && cls != "plain" {
 		n := 1 + d.rng.Intn(2)
